@@ -1,4 +1,5 @@
 import AgdbCrash.Lemmas.Frame
+import AgdbCrash.Lemmas.Layouts
 /-!
 # C05 — reopening and maintenance operations preserve the database
 
@@ -7,7 +8,11 @@ Proof structure (DESIGN §6 C05): (i) frame lemma — every structure reads stor
 (ii) per-structure `from_storage` / `shrink_to_fit` lemmas: what is rebuilt from the bytes gives the
 same observations.  (ii) is staged: proved here for `DbVec<u64>`-shaped values (length + fixed-size
 elements: the layout of the graph vectors, of the map state/key/value arrays and of the index lists);
-the hash-table level (`MultiMapStorage`), `DbGraph`, `DbIndexes`, `DbKeyValues` and the byte-level
+and, at the level of the whole store, for vectors of ANY fixed element width, for `GraphDataStorage`
+(index record + four slot vectors) and for `DbMapData` (`MapDataIndex` + states/keys/values vectors), each
+composed with the frame lemma (`C05_graph_open_image`, `C05_map_open_image`, `C05_store_open_image_partial`).
+What the structures compute FROM those slot vectors is the business of C08 (graph arrays) and C19
+(`MultiMap_refines`); `DbIndexes`, `DbKeyValues` (vectors of variable-size elements) and the byte-level
 `read_records` (C04_reopen, group storage) are validated by the stream only.
 -/
 namespace AgdbCrash.Frame
@@ -91,6 +96,92 @@ theorem C05_open_image_partial : C05_open_image_statement [vecLayout] := by
   simp only [List.mem_singleton] at hL
   subst hL
   exact C05_vec_open_image s.1 s.2 hv.1 hv.2
+
+-- composite layouts at the level of the whole store ----------------------------------------------
+
+/-- `open_image` for a vector of fixed-size elements of any width `w` (i64 slots, `DbId`s, 16-byte
+`DbValueIndex`es, 1-byte map states), any content, any capacity. -/
+theorem C05_vecW_open_image (w : Nat) (elems : List (List Nat)) (cap : Nat) (h : okVec w elems) :
+    vecObserveW w (vecBytesW w elems cap) = some (vecObsOf elems) :=
+  vecW_open_image w elems cap h
+
+/-- `GraphDataStorage::from_storage` after any maintenance operation: from the five records a live
+graph owns (wherever they lie in the file, whatever else the store holds in FRONT of them is excluded by
+`Nodup` only for the graph's own indexes), the four slot vectors are rebuilt exactly — every length and
+every slot. -/
+theorem C05_graph_open_image (g : GraphSt) (ps : Nat → Nat) (m : Maint) (hv : g.valid) :
+    graphRebuild (abs (m.apply (graphStore g ps))) g.root = some (graphObserve g) := by
+  rw [C05_frame (fun st => graphRebuild st g.root) m]
+  obtain ⟨hn, h1, h2, h3, h4, hf, ht, hfm, htm⟩ := hv
+  simp only [List.nodup_cons, List.mem_cons, List.not_mem_nil, or_false, not_or, List.nodup_nil,
+    and_true] at hn
+  obtain ⟨⟨r1, r2, r3, r4⟩, ⟨a1, a2, a3⟩, ⟨b1, b2⟩, c1⟩ := hn
+  have e0 : abs (graphStore g ps) g.root
+      = some (le64 g.iFrom ++ (le64 g.iTo ++ (le64 g.iFromMeta ++ le64 g.iToMeta))) := by
+    simp [abs, graphStore]
+  have e1 : abs (graphStore g ps) g.iFrom = some (vecBytesW 8 g.from_ g.cFrom) := by
+    simp [abs, graphStore, r1]
+  have e2 : abs (graphStore g ps) g.iTo = some (vecBytesW 8 g.to_ g.cTo) := by
+    simp [abs, graphStore, r2, a1]
+  have e3 : abs (graphStore g ps) g.iFromMeta = some (vecBytesW 8 g.fromMeta g.cFromMeta) := by
+    simp [abs, graphStore, r3, a2, b1]
+  have e4 : abs (graphStore g ps) g.iToMeta = some (vecBytesW 8 g.toMeta g.cToMeta) := by
+    simp [abs, graphStore, r4, a3, b2, c1]
+  unfold graphRebuild
+  rw [e0]
+  simp only [u64At_le64 _ _ h1, u64At_le64_at8 _ _ _ h2, u64At_le64_at16 _ _ _ _ h3,
+    u64At_le64_at24 _ _ _ _ h4, e1, e2, e3, e4, Option.bind_some,
+    vecW_open_image 8 _ _ hf, vecW_open_image 8 _ _ ht, vecW_open_image 8 _ _ hfm,
+    vecW_open_image 8 _ _ htm]
+  rfl
+
+/-- `DbMapData::from_storage` after any maintenance operation: `len` and the three slot vectors
+(states, keys, values — element widths `wk`, `wv` arbitrary) are rebuilt exactly. -/
+theorem C05_map_open_image (s : MapSt) (ps : Nat → Nat) (m : Maint) (hv : s.valid) :
+    mapRebuild s.wk s.wv (abs (m.apply (mapStore s ps))) s.root = some (mapObserve s) := by
+  rw [C05_frame (fun st => mapRebuild s.wk s.wv st s.root) m]
+  obtain ⟨hn, hl, h1, h2, h3, hs, hk, hvv⟩ := hv
+  simp only [List.nodup_cons, List.mem_cons, List.not_mem_nil, or_false, not_or, List.nodup_nil,
+    and_true] at hn
+  obtain ⟨⟨r1, r2, r3⟩, ⟨a1, a2⟩, b1⟩ := hn
+  have e0 : abs (mapStore s ps) s.root
+      = some (le64 s.len ++ (le64 s.iStates ++ (le64 s.iKeys ++ le64 s.iValues))) := by
+    simp [abs, mapStore]
+  have e1 : abs (mapStore s ps) s.iStates = some (vecBytesW 1 s.states s.cStates) := by
+    simp [abs, mapStore, r1]
+  have e2 : abs (mapStore s ps) s.iKeys = some (vecBytesW s.wk s.keys s.cKeys) := by
+    simp [abs, mapStore, r2, a1]
+  have e3 : abs (mapStore s ps) s.iValues = some (vecBytesW s.wv s.values s.cValues) := by
+    simp [abs, mapStore, r3, a2, b1]
+  have hlen : ¬ (le64 s.len ++ (le64 s.iStates ++ (le64 s.iKeys ++ le64 s.iValues))).length < 32 := by
+    simp [le64_length]
+  unfold mapRebuild
+  rw [e0]
+  simp only [hlen, if_false, u64At_le64 _ _ hl, u64At_le64_at8 _ _ _ h1, u64At_le64_at16 _ _ _ _ h2,
+    u64At_le64_at24 _ _ _ _ h3, e1, e2, e3, Option.bind_some,
+    vecW_open_image 1 _ _ hs, vecW_open_image s.wk _ _ hk, vecW_open_image s.wv _ _ hvv]
+  rfl
+
+/-- Full statement of (ii) at store level: every structure's records, after any maintenance operation,
+rebuild to the live observations. -/
+def C05_store_open_image_statement (layouts : List StoreLayout) : Prop :=
+  ∀ L ∈ layouts, ∀ (s : L.State) (ps : Nat → Nat) (m : Maint), L.valid s →
+    L.rebuild s (abs (m.apply (L.toStore s ps))) (L.root s) = some (L.observe s)
+
+/-- Proved part: graph data and map data. Missing: `DbIndexes` / `DbKeyValues` (vectors whose elements
+are themselves storage indexes of variable-size values) and the database root `DbStorageIndex`. -/
+theorem C05_store_open_image_partial : C05_store_open_image_statement [graphLayout, mapLayout] := by
+  intro L hL s ps m hv
+  simp only [List.mem_cons, List.not_mem_nil, or_false] at hL
+  rcases hL with rfl | rfl
+  · exact C05_graph_open_image s ps m hv
+  · exact C05_map_open_image s ps m hv
+
+-- non-vacuity: a graph with one node (slot 0 + slot 1) meets the hypotheses
+example : (⟨2, 3, 4, 5, 6, [le64 0, le64 0], [le64 0, le64 0], [le64 0, le64 0], [le64 1, le64 0], 2, 2, 2, 2⟩ : GraphSt).valid := by
+  simp [GraphSt.valid, okVec, le64_length]
+example : (⟨2, 1, 3, 4, 5, 8, 8, [[1], [0]], [le64 7, le64 0], [le64 9, le64 0], 2, 2, 2⟩ : MapSt).valid := by
+  simp [MapSt.valid, okVec, le64_length]
 
 -- non-vacuity
 example : abs (optimize [⟨1, 100, [1, 2]⟩, ⟨2, 500, [3]⟩]) 2 = some [3] := by decide
